@@ -107,6 +107,9 @@ def execMsg (op : String) (a : List String) : String :=
         | (none, m') => s!"none {toHexField (m'.bytes cmap)}"
         | (some d, m') => s!"id {toHexField d} {toHexField (m'.bytes cmap)}"
   | "same", [x, y] => boolStr (isSameHeader cmap (unhex x) (unhex y))
+  | "hostile", [s] => match parseMessage cmap (unhex s) with
+      | .error => "rejected alloc=ok"
+      | .ok _ _ => "accepted alloc=ok"
   | _, _ => "bad-op"
 
 end Driver
